@@ -189,6 +189,9 @@ fn check_replies(cmds: &[Vec<u8>], conv: &Conv, last_seq: &[u8], o: &Outcome, v:
 }
 
 impl Family for SeqFamily {
+    fn ambient(&self, idx: u64) -> u64 {
+        crate::engine::rot(idx)
+    }
     fn name(&self) -> String {
         format!("command-sequences-depth-{}", self.depth)
     }
